@@ -246,24 +246,101 @@ func runGateHTTP(c *Ctx, rule string, withAuth bool) {
 	runC12S1(c, w, serve, denied, auth)
 }
 
-// c12StatusWrite: the instruction answers the client with a status: http.Error, ResponseWriter.WriteHeader, or a
-// repository helper that does so and is handed exactly one constant in the status range.
-func c12StatusWrite(i ssa.Instruction) (code int64, known bool, ok bool) {
-	prim := func(j ssa.Instruction) (ssa.Value, bool) {
-		cc := callCommon(j)
-		if cc == nil {
-			return nil, false
-		}
-		if calleeName(cc) == "net/http.Error" && len(cc.Args) == 3 {
-			return cc.Args[2], true
-		}
-		if cc.IsInvoke() && cc.Method.Name() == "WriteHeader" && len(cc.Args) == 1 {
-			return cc.Args[0], true
-		}
+// c12StatusPrim: the instruction writes a status to the client: http.Error, ResponseWriter.WriteHeader; returns the
+// status operand.
+func c12StatusPrim(j ssa.Instruction) (ssa.Value, bool) {
+	cc := callCommon(j)
+	if cc == nil {
 		return nil, false
 	}
-	if v, isPrim := prim(i); isPrim {
-		code, known = constInt(v)
+	if calleeName(cc) == "net/http.Error" && len(cc.Args) == 3 {
+		return cc.Args[2], true
+	}
+	if cc.IsInvoke() && cc.Method.Name() == "WriteHeader" && len(cc.Args) == 1 {
+		return cc.Args[0], true
+	}
+	return nil, false
+}
+
+// c12StatusConsts: the status constants (100..599) a status operand can stem from, in call context ctx; exact is
+// false when the operand can also stem from something that is not a constant visible here (configuration, a table, the
+// result of a library call).
+func c12StatusConsts(v ssa.Value, ctx []ssa.CallInstruction) (codes map[int64]bool, exact bool) {
+	codes, exact = map[int64]bool{}, true
+	isInt := func(x ssa.Value) bool {
+		bt, ok := x.Type().Underlying().(*types.Basic)
+		return ok && bt.Info()&types.IsInteger != 0
+	}
+	c12Slice(v, ctx, func(x ssa.Value) bool {
+		if k, ok := x.(*ssa.Const); ok {
+			if n, isN := constInt(k); isN && isInt(k) && n >= 100 && n <= 599 {
+				codes[n] = true
+			}
+			return true
+		}
+		if !isInt(x) {
+			return false
+		}
+		switch y := x.(type) {
+		case *ssa.Lookup:
+			exact = false
+		case *ssa.Call:
+			if sc := y.Call.StaticCallee(); sc == nil || !isRepoFn(sc) {
+				exact = false
+			}
+		case *ssa.Extract:
+			if call, ok := y.Tuple.(*ssa.Call); ok {
+				if sc := call.Call.StaticCallee(); sc == nil || !isRepoFn(sc) {
+					exact = false
+				}
+			}
+		case *ssa.Parameter:
+			if y.Parent() != nil && len(gSites[y.Parent()]) == 0 {
+				exact = false
+			}
+		case *ssa.UnOp:
+			// a member of something that is not built here (p.Config.NoRouteStatus)
+			if fa, ok := y.X.(*ssa.FieldAddr); ok && y.Op == token.MUL {
+				base := fa.X
+				for {
+					f2, isFA := base.(*ssa.FieldAddr)
+					if !isFA {
+						break
+					}
+					base = f2.X
+				}
+				switch base.(type) {
+				case *ssa.Alloc, *ssa.Global:
+				default:
+					exact = false
+				}
+			}
+		}
+		return false
+	})
+	return codes, exact
+}
+
+func c12OneCode(codes map[int64]bool, exact bool) (int64, bool) {
+	if !exact || len(codes) != 1 {
+		return 0, false
+	}
+	for n := range codes {
+		return n, true
+	}
+	return 0, false
+}
+
+// c12StatusWrite: the instruction answers the client with a status: http.Error, ResponseWriter.WriteHeader, or a
+// repository helper that does so. The status is known if it is a constant, or stems from exactly one status constant
+// (a `denial{403, "access denied"}` value with a write method, a package-level variable of such a type, a helper
+// handed the constant).
+func c12StatusWrite(i ssa.Instruction) (code int64, known bool, ok bool) {
+	if v, isPrim := c12StatusPrim(i); isPrim {
+		if code, known = constInt(v); known {
+			return code, true, true
+		}
+		code, known = c12OneCode(c12StatusConsts(v, nil))
 		return code, known, true
 	}
 	if r, isRet := i.(*ssa.Return); isRet {
@@ -282,7 +359,8 @@ func c12StatusWrite(i ssa.Instruction) (code int64, known bool, ok bool) {
 		return 0, false, false
 	}
 	sc := call.Call.StaticCallee()
-	if sc == nil || !isRepoFn(sc) || !mayExec(unwrap(sc), func(j ssa.Instruction) bool { _, p := prim(j); return p }, 1) {
+	isPrim := func(j ssa.Instruction) bool { _, p := c12StatusPrim(j); return p }
+	if sc == nil || !isRepoFn(sc) || !mayExec(unwrap(sc), isPrim, 1) {
 		return 0, false, false
 	}
 	n := 0
@@ -291,7 +369,35 @@ func c12StatusWrite(i ssa.Instruction) (code int64, known bool, ok bool) {
 			code, n = k, n+1
 		}
 	}
-	return code, n == 1, true
+	if n == 1 {
+		return code, true, true
+	}
+	// the status operands of the writes inside the helper, judged for this call
+	all, exact, writes := map[int64]bool{}, true, 0
+	var inside func(f *ssa.Function, ctx []ssa.CallInstruction, depth int)
+	inside = func(f *ssa.Function, ctx []ssa.CallInstruction, depth int) {
+		eachInstr(f, func(j ssa.Instruction) {
+			if v, p := c12StatusPrim(j); p {
+				writes++
+				cs, ex := c12StatusConsts(v, ctx)
+				exact = exact && ex
+				for k := range cs {
+					all[k] = true
+				}
+				return
+			}
+			if ci, isCI := j.(ssa.CallInstruction); isCI && depth < 2 {
+				if g := ci.Common().StaticCallee(); g != nil && isRepoFn(g) && len(unwrap(g).Blocks) > 0 && mayExec(unwrap(g), isPrim, 1) {
+					inside(unwrap(g), append(append([]ssa.CallInstruction{}, ctx...), ci), depth+1)
+				}
+			}
+		})
+	}
+	inside(unwrap(sc), []ssa.CallInstruction{call}, 0)
+	if writes > 0 {
+		code, known = c12OneCode(all, exact)
+	}
+	return code, known, true
 }
 
 // runC12S1: the deny edges answer 403 / 401 and nothing but the way out follows.
